@@ -9,6 +9,8 @@ open ElaVerif.Index Driver
     save     <block>      → ok | err | panic
     rollback <block>      → ok | err | panic
     obs <q>*              → one answer per query, space separated
+    codec <idx>*          → the list after toByteArray / getUint16Array
+    decode <byte>*        → getUint16Array of raw stored bytes (err on odd length)
   <block> = id prev height ntx { txid kind pver nonce nin {t:i} nout {addr:value:W<h>|R<h>|-} nph {h} npd {hex} }
   ids and hashes are hex, heights / counts / values decimal.
 -/
@@ -61,6 +63,16 @@ def step (st : St) : List String → St × String
       | some b => apply st (disconnect st.s b)
       | none => (st, "bad-op")
   | "obs" :: qs => (st, " ".intercalate (qs.map (obs1 st.s)))
+  | "codec" :: xs => match xs.mapM nat? with
+      | some l => match u16dec (u16enc l) with
+          | some r => (st, fmtList (r.map toString))
+          | none => (st, "err")
+      | none => (st, "bad-op")
+  | "decode" :: xs => match xs.mapM nat? with
+      | some l => match u16dec l with
+          | some r => (st, fmtList (r.map toString))
+          | none => (st, "err")
+      | none => (st, "bad-op")
   | _ => (st, "bad-op")
 
 end C13Drv
